@@ -574,7 +574,12 @@ class C13(common.Prop):
         mask = np.array(case["mask"], dtype=bool).reshape(F, P, N)
         pose = self.m["Pose"](self.header(None, N, D), self.body(case["backend"], case["shape"], arr, mask))
         try:
-            mu, std = pose.normalize_distribution(axis=tuple(case["axes"]))
+            ax = tuple(case["axes"])
+            if len(ax) == 1 and case["backend"] != "tf32":
+                # NumPy bodies: a single axis may be given as a bare integer (Python or NumPy) or as a tuple - the same reduction
+                form = (sum(case["shape"]) + len(case["data"])) % 3
+                ax = [ax[0], np.int64(ax[0]), ax][form]
+            mu, std = pose.normalize_distribution(axis=ax)
             v1, m1 = self.dump(case["backend"], pose.body.data)
             mv, mm = self.dump(case["backend"], mu)
             sv, sm = self.dump(case["backend"], std)
